@@ -441,6 +441,11 @@ func genMerlinHistory(g *Gen) {
 		case len(rngs) > 0:
 			rg := rngs[g.Intn(len(rngs))]
 			g.Emit("m.read", "M1", "m.read", itoa(rg.id), itoa(m1PickLen(g)))
+			if g.Intn(3) == 0 {
+				// a zero-length read is still a framed operation: it must change what later reads return
+				g.Emit("m.read.zero", "M1", "m.read", itoa(rg.id), "0")
+				g.Emit("m.read.afterzero", "M1", "m.read", itoa(rg.id), itoa(1+g.Intn(40)))
+			}
 		default:
 			appendOp(t)
 		}
